@@ -19,7 +19,7 @@ ENGINE_PATCHES = [
     'crosshair.libimpl.relib._Match.groupdict returned spans instead of substrings -> replaced (6 lines)',
     'crosshair.opcode_intercept.BoolStashingValue.__bool__ failed on proxies without __bool__ (x = not symbolic_bytes) -> falls back to len()',
     'symbolic bytes.split(sep) realized the bytes -> find()-based definition for non-empty sep without maxsplit',
-    'crosshair.simplestructs.SequenceConcatenation.__eq__ returned False for an empty concrete tail vs empty symbolic slice -> operands swapped, empty halves skipped',
+    'crosshair.simplestructs.SequenceConcatenation.__eq__ returned False for an empty concrete tail vs empty symbolic slice -> empty halves are skipped',
 ]
 _installed = False
 
@@ -146,12 +146,14 @@ def patch_crosshair():
             return False
         firstlen = first.__len__()
         secondlen = second.__len__()
+        # original operand order; only the empty halves (the failing case) are skipped
         if secondlen == 0:
-            return other[:firstlen] == first
+            return first == other
         if firstlen == 0:
-            return other[firstlen:] == second
-        return other[:firstlen] == first and other[firstlen:] == second
-    _ss.SequenceConcatenation.__eq__ = _concat_eq
+            return second == other
+        return first == other[:firstlen] and second == other[firstlen:]
+    if os.environ.get('VERIF_NO_CONCAT_PATCH') != '1':
+        _ss.SequenceConcatenation.__eq__ = _concat_eq
 
 
 def verify_pure():
